@@ -217,21 +217,54 @@ def _plays_parsed(played):
 
 # ---------------------------------------------------------------------------
 
+def eval_text(nf, variant, env, D):
+    """Text the writer produces for a move of this kind under concrete field values (case folding), or None."""
+    a = {("var", "self"): ("variant", MV + variant)}
+    a.update(env)
+    v = hir.fold(nf, a, D)
+    if not (isinstance(v, tuple) and v and v[0] == "str"):
+        return None
+    out = ""
+    for p in v[1:]:
+        if p[0] in ("ch", "s") and p[1][0] == "lit" and isinstance(p[1][1], str):
+            out += p[1][1]
+        else:
+            return None
+    return out
+
+
+def coords_env(r1, c1, r2, c2):
+    S, E = ("field", ("var", "self"), "start"), ("field", ("var", "self"), "end")
+    return {("call", "chess::position::Position::row", (S,)): ("lit", r1), ("call", "chess::position::Position::col", (S,)): ("lit", c1),
+            ("call", "chess::position::Position::row", (E,)): ("lit", r2), ("call", "chess::position::Position::col", (E,)): ("lit", c2)}
+
+
+def sq(r, c):
+    return chr(97 + c) + chr(49 + r)
+
+
+SAMPLE = [(r, c, (r + 3) % 8, (c + 5) % 8) for r in range(8) for c in range(8)]
+
+
 def u2(ctx, F, D):
     w = F.fn(WR)
     nf = sym_fn(w, F)
-    arm = arm_of(nf, "Promotion")
-    ok = arm is not None and arm[0] == "str" and len(arm) == 6
-    ctx.check("C12.U2", "writer:promotion-text-has-five-characters", ok, fn=WR, file=w["file"], line=w["span"][0],
-              what="promotion text must be origin, destination and one letter", found=hir.fmt(arm, 300) if arm else None)
     wtab = {}
-    if ok:
-        for t, L in (("Queen", "q"), ("Rook", "r"), ("Bishop", "b"), ("Knight", "n")):
-            v = hir.fold(arm[5], {SELF("new_piece"): ("variant", PT + t)}, D)
-            got = v[1][1] if v[0] == "ch" and v[1][0] == "lit" else None
-            wtab[t] = got
-            ctx.check("C12.U2", "writer:promotion-letter:%s" % t, got == L, fn=WR, file=w["file"], line=w["span"][0],
-                      what="UCI promotion letter must be lower-case q/r/b/n", expected=L, found=got)
+    for t, L in (("Queen", "q"), ("Rook", "r"), ("Bishop", "b"), ("Knight", "n")):
+        bad = []
+        for (r1, c1, r2, c2) in SAMPLE[::7]:
+            env = coords_env(r1, c1, r2, c2)
+            env[SELF("new_piece")] = ("variant", PT + t)
+            got = eval_text(nf, "Promotion", env, D)
+            if got != sq(r1, c1) + sq(r2, c2) + L:
+                bad.append(((r1, c1, r2, c2), got))
+        env = coords_env(6, 0, 7, 0)
+        env[SELF("new_piece")] = ("variant", PT + t)
+        g = eval_text(nf, "Promotion", env, D)
+        wtab[t] = g[4:] if g and len(g) >= 5 else None
+        ctx.check("C12.U2", "writer:promotion-text:%s" % t, not bad, fn=WR, file=w["file"], line=w["span"][0],
+                  what="a promotion must be written as origin, destination and the lower-case letter of the piece promoted to",
+                  expected="e.g. a7a8%s" % L, found=bad[:3])
     r = F.fn(RD)
     rtab = {}
     node = None
@@ -262,9 +295,7 @@ def u3(ctx, F, D):
     std = {("CastlingShort", "White"): "e1g1", ("CastlingShort", "Black"): "e8g8",
            ("CastlingLong", "White"): "e1c1", ("CastlingLong", "Black"): "e8c8"}
     for (variant, owner), text in std.items():
-        arm = arm_of(nf, variant)
-        v = hir.fold(arm, {SELF("owner"): ("variant", PL + owner)}, D) if arm is not None else None
-        got = text_of(v) if v is not None and v[0] == "str" else None
+        got = eval_text(nf, variant, {SELF("owner"): ("variant", PL + owner)}, D)
         wtab[(variant, owner)] = got
         ctx.check("C12.U3", "writer:%s %s" % (variant, owner), got == text, fn=WR, file=w["file"], line=w["span"][0],
                   what="castling must be written as the king's two-square move", expected=text, found=got)
@@ -306,31 +337,34 @@ def u3(ctx, F, D):
 def u4(ctx, F, D):
     w = F.fn(WR)
     nf = sym_fn(w, F)
-    for variant in ("Normal", "Promotion"):
-        arm = arm_of(nf, variant)
-        ps = list(arm[1:]) if arm is not None and arm[0] == "str" else None
-        ok = ps is not None and len(ps) >= 4 and file_char(ps[0], col_of(SELF("start"))) and rank_char(ps[1], row_of(SELF("start"))) \
-            and file_char(ps[2], col_of(SELF("end"))) and rank_char(ps[3], row_of(SELF("end")))
-        ctx.check("C12.U4", "writer:%s-coordinates" % variant, ok, fn=WR, file=w["file"], line=w["span"][0],
-                  what="move text must be file('a'+col) rank('1'+row) of the origin, then of the destination",
-                  expected="[a+start.col, 1+start.row, a+end.col, 1+end.row]", found=hir.fmt(arm, 300) if arm else None)
-    # en passant: ranks from the board surgery of Game::push
+    for variant in ("Normal",):
+        bad = []
+        for (r1, c1, r2, c2) in SAMPLE:
+            got = eval_text(nf, variant, coords_env(r1, c1, r2, c2), D)
+            if got != sq(r1, c1) + sq(r2, c2):
+                bad.append(((r1, c1, r2, c2), got))
+        ctx.check("C12.U4", "writer:%s-coordinates" % variant, not bad, fn=WR, file=w["file"], line=w["span"][0],
+                  what="move text must be file('a'+col) rank('1'+row) of the origin, then of the destination (64 sampled coordinate pairs "
+                       "covering every row and column)", expected="e.g. (1,4)->(3,4) = e2e4", found=bad[:3])
+    # en passant: squares from the board surgery of Game::push
     rows = en_passant_rows(F)
     ctx.check("C12.U4", "push:en-passant-rows-extracted", rows is not None, fn="chess::Game::push", file="src/chess/mod.rs",
               what="could not extract the en-passant squares from Game::push", nontrivial=False)
-    arm = arm_of(nf, "EnPassant")
     for owner in ("White", "Black"):
-        v = hir.fold(arm, {SELF("owner"): ("variant", PL + owner)}, D) if arm is not None else None
-        ps = list(v[1:]) if v is not None and v[0] == "str" else None
-        ok = ps is not None and len(ps) == 4 and file_char(ps[0], SELF("start_col")) and file_char(ps[2], SELF("end_col"))
-        exp = None
-        if ok and rows:
+        bad = []
+        if rows:
             o, nw = rows[owner]["old"], rows[owner]["new"]
-            exp = (chr(49 + o), chr(49 + nw))
-            ok = ps[1] == ("ch", ("lit", exp[0])) and ps[3] == ("ch", ("lit", exp[1]))
-        ctx.check("C12.U4", "writer:EnPassant-%s-ranks-match-board-surgery" % owner, ok, fn=WR, file=w["file"], line=w["span"][0],
-                  what="the en-passant text must name the squares Game::push actually moves the pawn between",
-                  expected=exp, found=hir.fmt(v, 200) if v is not None else None)
+            for c1 in range(8):
+                for c2 in (c1 - 1, c1 + 1):
+                    if 0 <= c2 <= 7:
+                        env = {SELF("owner"): ("variant", PL + owner), SELF("start_col"): ("lit", c1), SELF("end_col"): ("lit", c2)}
+                        got = eval_text(nf, "EnPassant", env, D)
+                        if got != sq(o, c1) + sq(nw, c2):
+                            bad.append(((c1, c2), got, sq(o, c1) + sq(nw, c2)))
+        ctx.check("C12.U4", "writer:EnPassant-%s-text-matches-board-surgery" % owner, bool(rows) and not bad, fn=WR, file=w["file"], line=w["span"][0],
+                  what="the en-passant text must name the squares Game::push actually moves the pawn between (a wrong rank makes the legal "
+                       "capture unplayable by its standard text and accepts a non-standard one)",
+                  expected="file(start_col)+rank(old row) file(end_col)+rank(new row)", found=bad[:3])
     # reader decoding order and arithmetic
     r = F.fn(RD)
     env = hir.Env(r["hir"], F)
